@@ -259,8 +259,10 @@ def main(argv=None):
         except Exception:
             samples.append({"obligation": ob.name, "status": ob.status})
     assumptions = list(props.COMMON_ASSUMPTIONS) + list(spec.get("assumptions", []))
-    for q in trusted:
-        assumptions += CONTRACTS[q].assumptions() or [f"{q}: assumed contract (body not checked)"]
+    used_trusted = sorted({q for r in reports for q in getattr(r, "used_trusted", [])} | set(trusted))
+    for q in used_trusted:
+        c_ = CONTRACTS.get(q)
+        assumptions += (c_.assumptions() if c_ is not None and c_.assumptions() else [f"{q}: assumed contract (body not checked)"])
     assumptions.append("builtin models used as assumed contracts of CPython primitives: " + ", ".join(sorted(pyvc_models.USED_MODELS)))
     all_proved = not failing and not undecided and not checker_errors and not bounded_violations
     evidence = {
@@ -285,7 +287,7 @@ def main(argv=None):
                  "generation_s": round(r.wall_s, 2)} for r in reports],
             "lemmas": len(lemma_obs),
             "frame_scan_obligations": len(scan_obs),
-            "assumed_contracts_not_checked": trusted,
+            "assumed_contracts_not_checked": used_trusted,
             "inlined_contracts": inlined_contracts,
             "backends": by_backend,
             "solver_s": round(t_solve, 2),
